@@ -20,7 +20,8 @@ LEVEL_TEXT = ("Generated target sets (sparse, full and nearly full blocks at "
               "compressed by the real code and the result is decoded by an "
               "independent decoder and compared as a multiset; randomised "
               "exploration because the input space (subsets of 1.2M cores) "
-              "cannot be enumerated.")
+              "cannot be enumerated."
+              ' One dictionary object edited in place and compressed again; a rejected set followed by a corrected one.')
 LEVEL_NOTE = ("Trusted: the harness's region-word decoder. Only generated "
               "target sets are covered.")
 RULE = ("one case = one target set built from points, rectangles and holes; "
